@@ -15,6 +15,8 @@ ClsLeaves == {Cls(c) : c \in ClassNames} \cup {NotCls(c) : c \in ClassNames}
 AncLeaves == {Anc(c) : c \in AnchorNames} \cup {NotAnc(c) : c \in AnchorNames}
 InLeaves  == { In(<<La, Lb>>), In(<<Rng(<<ba>>, <<bb>>)>>), In(<<Cls("digit"), La>>),
                In(<<CiLit(<<bA>>)>>), In(<<Lab, La>>), In(<<Rng(<<ba, ba>>, <<ba, bb>>)>>),
+               \* three and more items that can match at the same position with different outcomes: tried in the order written
+               In(<<Lc, La, Lab>>), In(<<Lc, Lab, La>>), In(<<Lb, Lit(<<ba, ba>>), La, Lab>>), In(<<Lit(<<ba, bb, ba>>), Lab, La, Lb>>),
                NotIn(<<La>>), NotIn(<<Rng(<<ba>>, <<bb>>), Cls("digit")>>),
                NotIn(<<Cls("whitespace")>>), NotIn(<<La, Lb>>) }
 (* literal-kind leaves may stand as an operand of `or` and as a capture body *)
@@ -63,7 +65,7 @@ SigmaFor(M) ==
     \cup (IF M \cap {"digit", "letter"} # {} THEN {d1} ELSE {})
     \cup (IF M \cap {"upper", "lower", "case", "ref"} # {} THEN {bA} ELSE {})     \* a back-reference is exact, also in letter case
     \cup (IF M \cap {"whitespace", "wordstart", "wordend", "wholeword"} # {} THEN {sp} ELSE {})
-    \cup (IF M \cap {"linestart", "lineend", "whitespace", "wholeline"} # {} THEN {nl} ELSE {})
+    \cup (IF M \cap {"linestart", "lineend", "whitespace", "wholeline", "filestart", "fileend"} # {} THEN {nl} ELSE {})   \* file anchors are not line anchors
 
 LenFor(S, tier) ==
   IF tier = "quick"
@@ -304,7 +306,8 @@ C05_Withs ==
 
 (* ===================================================================== C06 *)
 C06_Withs == { <<WStr(<<>>)>>, <<WStr(<<120>>)>>, <<WStr(<<120, 121, 122>>)>>, <<WName("value"), WName("value")>>,
-               <<WName("matchNumber")>>, <<WName("nosuchname")>> }     \* the last one names nothing: the match is deleted
+               <<WName("matchNumber")>>, <<WName("nosuchname")>>,      \* the last one names nothing: the match is deleted
+               <<WStr(<<195, 169>>)>>, <<WStr(<<226, 130, 172, 120>>), WName("value")>> }   \* offsets are counted in bytes, also after a multi-byte replacement
 C06_Bodies == { <<La>>, <<Lab>>, <<Loop(1, -1, FALSE, La)>>, <<Cls("any")>>, <<Lit(<<bc>>)>> }
 
 (* ===================================================================== C13 *)
